@@ -193,3 +193,91 @@ pub fn stream_emit(cx: &mut Ctx, cj: Value, text: &[u8], nlines: usize, mix: u64
         Err(p) => cx.sum.fail("StreamingLexIterator", None, cj, &format!("panicked: {}", p)),
     }
 }
+
+static N_SEARCH: AtomicUsize = AtomicUsize::new(0);
+static N_ZO: AtomicUsize = AtomicUsize::new(0);
+fn coq_res(r: Result<usize, usize>) -> String { match r { Ok(i) => format!("(true, {})", i), Err(i) => format!("(false, {})", i) } }
+
+/// SortableStrVec::binary_search on small vectors with cache_block_size 1..4 (block path from 3 strings on) and the
+/// default block size (small path); the model gets the sorted enumeration the vector itself reports
+pub fn search_emit(cx: &mut Ctx, cj: Value, strings: &[String], probes: &[String]) {
+    if strings.len() > 40 { return; }
+    let k = N_SEARCH.load(AO::Relaxed);
+    if !room(&N_SEARCH, 200) { return; }
+    let bs = [1usize, 2, 3, 4, 256][k % 5];
+    cx.sum.eval("SortableStrVec_core", &format!("search {:?} {:?} {}", strings, probes, bs), strings.len() >= 2);
+    let r = guarded(|| -> Result<String, String> {
+        std::env::set_var("SORTABLE_CACHE_BLOCK", bs.to_string());
+        let made = (|| -> Result<zipora::SortableStrVec, String> {
+            let mut v = zipora::SortableStrVec::new();
+            for s in strings { v.push_str(s).map_err(|e| e.to_string())?; }
+            Ok(v)
+        })();
+        std::env::remove_var("SORTABLE_CACHE_BLOCK");
+        let mut v = made?;
+        v.sort_lexicographic().map_err(|e| e.to_string())?;
+        let sorted: Vec<Vec<u8>> = (0..v.len()).filter_map(|i| v.get_sorted(i).map(|s| s.as_bytes().to_vec())).collect();
+        if sorted.len() != strings.len() { return Err("sorted enumeration incomplete".into()); }
+        let mut ps: Vec<Vec<u8>> = probes.iter().map(|p| p.as_bytes().to_vec()).collect();
+        ps.extend(sorted.iter().take(6).cloned());
+        let res: Vec<String> = ps.iter().map(|p| coq_res(v.binary_search(std::str::from_utf8(p).unwrap()))).collect();
+        Ok(format!("(XSearch {} {} {} [{}])%N", more::coq_bll(&sorted), bs, more::coq_bll(&ps), res.join("; ")))
+    });
+    std::env::remove_var("SORTABLE_CACHE_BLOCK");
+    match r {
+        Ok(Ok(term)) => cx.shards.push(term, cj),
+        Ok(Err(_)) => {}   // refused input (NUL / too long): the oracle in sortable_case judges that
+        Err(p) => cx.sum.fail("SortableStrVec", None, cj, &format!("panicked: {}", p)),
+    }
+}
+
+static N_PUSH: AtomicUsize = AtomicUsize::new(0);
+/// SortableStrVec storage: push every string (push_str / push alternating), then get at every index and beyond
+pub fn push_emit(cx: &mut Ctx, cj: Value, strings: &[String]) {
+    if strings.len() > 40 { return; }
+    if !room(&N_PUSH, 150) { return; }
+    cx.sum.eval("SortableStrVec_core", &format!("push {:?}", strings), strings.len() >= 2);
+    let r = guarded(|| {
+        let ss: Vec<&[u8]> = strings.iter().map(|s| s.as_bytes()).collect();
+        let mut v = zipora::SortableStrVec::new();
+        let mut ok = true;
+        for (i, s) in strings.iter().enumerate() {
+            let r = if i % 2 == 0 { v.push_str(s) } else { v.push(s.clone()) };
+            if r.ok() != Some(i) { ok = false; break; }
+        }
+        if !ok { return format!("(XPush {} false [])%N", more::coq_bll(&ss)); }
+        let gets: Vec<String> = (0..strings.len() + 2).map(|i| coq_obl(&v.get(i).map(|s| s.as_bytes().to_vec()))).collect();
+        format!("(XPush {} true [{}])%N", more::coq_bll(&ss), gets.join("; "))
+    });
+    match r {
+        Ok(term) => cx.shards.push(term, cj),
+        Err(p) => cx.sum.fail("SortableStrVec", None, cj, &format!("panicked: {}", p)),
+    }
+}
+
+/// ZoSortedStrVec::from_sorted_strings on the list as given (sorted or not, with or without NUL bytes)
+pub fn zo_emit(cx: &mut Ctx, cj: Value, strings: &[String], probes: &[String]) {
+    if strings.len() > 40 { return; }
+    if !room(&N_ZO, 200) { return; }
+    let r = guarded(|| {
+        let ss: Vec<&[u8]> = strings.iter().map(|s| s.as_bytes()).collect();
+        match zipora::ZoSortedStrVec::from_sorted_strings(strings.to_vec()) {
+            Err(_) => format!("(XZo {} false [] [] [] [] [])%N", more::coq_bll(&ss)),
+            Ok(z) => {
+                let gets: Vec<String> = (0..strings.len() + 2).map(|i| coq_obl(&z.get(i).map(|s| s.as_bytes().to_vec()))).collect();
+                let iter: Vec<Vec<u8>> = z.iter().map(|s| s.as_bytes().to_vec()).collect();
+                let ps: Vec<&[u8]> = probes.iter().map(|p| p.as_bytes()).collect();
+                let res: Vec<String> = probes.iter().map(|p| coq_res(z.binary_search(p))).collect();
+                let ranges: Vec<String> = probes.windows(2).map(|w| {
+                    let items: Vec<Vec<u8>> = z.range(&w[0], &w[1]).map(|s| s.as_bytes().to_vec()).collect();
+                    more::coq_bll(&items)
+                }).collect();
+                format!("(XZo {} true [{}] {} {} [{}] [{}])%N", more::coq_bll(&ss), gets.join("; "), more::coq_bll(&iter), more::coq_bll(&ps), res.join("; "), ranges.join("; "))
+            }
+        }
+    });
+    match r {
+        Ok(term) => cx.shards.push(term, cj),
+        Err(p) => cx.sum.fail("ZoSortedStrVec", None, cj, &format!("panicked: {}", p)),
+    }
+}
